@@ -98,7 +98,7 @@ class C01(object):
         cfgP = enginea.draw_cfg(rnd, max_team=32)
         t = cfgK["team"]
         n = rnd.choice([1, 2, 3, t, t + 1, max(1, t - 1), 2 * t, 2 * t + 1, 7 * t - 1, 64, 100, 257] +
-                       ([1000, 3000] if rnd.random() < 0.2 else []))
+                       ([1000, 3000, 1024, 2048, 4096] if rnd.random() < 0.25 else []))
         pars = draw_pars(rnd)
         sc = g.uniform(0, 2048, n)
         fc = g.uniform(0, 2048, n)
